@@ -2,7 +2,7 @@
 //! real tftpc/tftpd binaries (IPv4/IPv6, path styles, refusals), and two real Workers joined by the simulated
 //! network with every placement of one fault.
 
-use crate::e2_c05::{spawn_tftpd, TFTPC};
+use crate::e2_c05::{spawn_tftpd, tftpc_path};
 use crate::loopback::*;
 use crate::modea::{e1_dir, Role, Trace, XCfg};
 use crate::monitors;
@@ -190,7 +190,7 @@ pub fn inproc_cell(spec: &Value) -> Value {
 // ---------------------------------------------------------------- real binaries
 
 fn run_tftpc(cwd: &str, args: &[String]) -> Result<(Option<i32>, String), String> {
-    let mut child = Command::new(TFTPC).args(args).current_dir(cwd).stdin(Stdio::null()).stdout(Stdio::null()).stderr(Stdio::piped()).spawn().map_err(|e| format!("spawn tftpc: {e}"))?;
+    let mut child = Command::new(tftpc_path()).args(args).current_dir(cwd).stdin(Stdio::null()).stdout(Stdio::null()).stderr(Stdio::piped()).spawn().map_err(|e| format!("spawn tftpc: {e}"))?;
     let t0 = Instant::now();
     loop {
         match child.try_wait() {
@@ -217,8 +217,8 @@ fn run_tftpc(cwd: &str, args: &[String]) -> Result<(Option<i32>, String), String
 
 pub fn binary_cell(spec: &Value) -> Value {
     let mut c = Counters::default();
-    if !std::path::Path::new(TFTPC).exists() {
-        return json!({"machinery_error": format!("{TFTPC} missing (./check build)")});
+    if !std::path::Path::new(&tftpc_path()).exists() {
+        return json!({"machinery_error": format!("{} missing (./check build)", tftpc_path())});
     }
     let ipv6 = spec["ipv6"].as_bool().unwrap_or(false);
     let single = spec["single"].as_bool().unwrap_or(false);
